@@ -50,4 +50,13 @@ def main():
     else:
         print('INCONCLUSIVE property=%s no check registered' % pid); sys.exit(2)
 
-main()
+try:
+    main()
+except SystemExit:
+    raise
+except BaseException:
+    # a failure of the machinery itself is never a verdict about the code under test
+    import traceback
+    traceback.print_exc()
+    print('INCONCLUSIVE property=%s internal error of the check (see the traceback above)' % (sys.argv[1] if len(sys.argv) > 1 else '?'))
+    sys.exit(2)
